@@ -9,6 +9,11 @@ fn out(found: bool, input: serde_json::Value, observed: String, expected: String
     let v = serde_json::json!({"found": found, "input": input, "observed": observed, "expected": expected, "cases": cases});
     std::fs::File::create(p).unwrap().write_all(v.to_string().as_bytes()).unwrap();
 }
+fn progress(input: &serde_json::Value) {
+    if let Ok(p) = std::env::var("VERIF_REPLAY_OUT") {
+        let _ = std::fs::write(p.replace("verif_replay_out.json", "verif_replay_progress.json"), serde_json::json!({"input": input}).to_string());
+    }
+}
 fn bh() -> BuildHasherDefault<FnvHasher> { BuildHasherDefault::<FnvHasher>::default() }
 
 fn case(kind: &str, m: usize, hist: &[u64], b: &[u64]) -> Option<(String, String)> {
@@ -121,6 +126,7 @@ fn verif_replay_c13() {
                     let hist: Vec<u64> = (0..hn as u64).map(|i| i * 31 + 5).collect();
                     let b: Vec<u64> = (0..bn as u64).map(|i| i * 17 + 1000).collect();
                     cases += 1;
+                    progress(&serde_json::json!({"kind": kind, "m": m, "history": hist, "input": b}));
                     if let Some((o, e)) = case(kind, m, &hist, &b) {
                         out(true, serde_json::json!({"kind": kind, "m": m, "history": hist, "input": b}), o, e, cases);
                         return;
